@@ -122,7 +122,8 @@ Definition ack_step (y : yexp) (e : event) : option yexp :=
     if proc_obs e then
       match y, e with
       | YInit, _ => Some YNone
-      | YNone, ERx (Publish d m id) => Some (if m_qos m =? 0 then YNone else YPub (Publish d m id))
+      | YNone, ERx (Publish d m id) =>
+        Some (match after_cb_exp (Publish d m id) with YNone => YNone | _ => YPub (Publish d m id) end)
       | YNone, ERx (Pubrel id) => Some (YRel id)
       | YNone, ECb _ Fail => Some YNone
       | YNone, _ => Some YNone
